@@ -368,7 +368,7 @@ static int ref_content_length(const ref_u8 *p, size_t n, unsigned long long *out
 	for (i = 0; i < n; i++) {
 		if (!ref_is_digit(p[i]))
 			return 0;
-		if (v > (0x7fffffffffffffffULL - (unsigned)(p[i] - '0')) / 10)
+		if (v > 0x7fffffffffffffffULL / 10 || (v == 0x7fffffffffffffffULL / 10 && (unsigned)(p[i] - '0') > 0x7fffffffffffffffULL % 10))
 			return 0;
 		v = v * 10 + (unsigned)(p[i] - '0');
 	}
@@ -492,7 +492,7 @@ static int ref_chunk_size_line(const ref_u8 *p, size_t n, unsigned long long *si
 	*size = 0;
 	while (i < n && ref_is_hexdig(p[i])) {
 		unsigned d = ref_is_digit(p[i]) ? (unsigned)(p[i] - '0') : (unsigned)(ref_lower(p[i]) - 'a' + 10);
-		if (v > (0x7fffffffffffffffULL - d) / 16)
+		if (v > 0x7fffffffffffffffULL / 16 || (v == 0x7fffffffffffffffULL / 16 && d > 0x7fffffffffffffffULL % 16))
 			over = 1;
 		else
 			v = v * 16 + d;
